@@ -140,7 +140,7 @@ func (b Bytes) Less(v Value) bool {
 		return b.Kind() < v.Kind()
 	}
 
-	return string(b.b) < string(v.(*Bytes).b)
+	return string(b.b) < string(v.(Bytes).b)
 }
 
 // Negate returns {(negateTag): b}.
